@@ -78,6 +78,8 @@ func (e *influxDec) Decode() error {
 			switch v.(type) {
 			case int64:
 				fVal = float64(v.(int64))
+			case uint64:
+				fVal = float64(v.(uint64))
 			case float64:
 				fVal = v.(float64)
 			default:
